@@ -31,18 +31,17 @@ theorem apply_reach {fuel cur : Nat} (ihA : SimA fo host P bodies fuel) {instr :
 
 theorem sim_unary {fuel : Nat} (ih : SimE fo host P bodies fuel) (ihA : SimA fo host P bodies fuel)
     (op : Instruction) (x : Expr F) : SimAt fo host P bodies (fuel + 1) (.unary op x) := by
-  intro cur st res st' h root pc rs vs fr entry hloc hwf hen hj hent hlt
+  intro cur st res st' h root pc rs vs fr entry hloc hwf hj hent hlt
   have h0 := h
   simp only [Located] at hloc
   obtain ⟨hlx, hi⟩ := hloc
   simp only [wfC, Bool.and_eq_true] at hwf
-  have hen' : root = cur ∨ enFree x = true := by simpa [enFree] using hen
   have hend : pc + len (.unary op x) = pc + len x + 1 := by simp only [len]; omega
   rw [hend] at hlt ⊢
   simp only [evalFS] at h
   rcases eval_cases (fo := fo) (host := host) (bodies := bodies) (cur := cur) (fuel := fuel) (x := x) (st := st)
     with ⟨w, st1, hx⟩ | ⟨w, st1, hx⟩ | ⟨e, hx⟩ | hx <;> simp only [hx] at h
-  · have ihx := (ih x cur st _ _ hx root pc rs vs fr entry hlx hwf.2 hen' hj hent (by omega)).toReach
+  · have ihx := (ih x cur st _ _ hx root pc rs vs fr entry hlx hwf.2 hj hent (by omega)).toReach
     split at h
     · rename_i hop
       have : op = .emptyApply := by simpa using hop
@@ -60,27 +59,26 @@ theorem sim_unary {fuel : Nat} (ih : SimE fo host P bodies fuel) (ihA : SimA fo 
   · simp only [Out.ok.injEq, Prod.mk.injEq] at h
     obtain ⟨rfl, rfl⟩ := h
     exact ResOK.sub_restart (pend := []) (.refl _)
-      (ih x cur st _ _ hx root pc rs vs fr entry hlx hwf.2 hen' hj hent (by omega)) (fun ht => (noR_sound (by simpa [tailR] using ht) h0).elim)
+      (ih x cur st _ _ hx root pc rs vs fr entry hlx hwf.2 hj hent (by omega)) (fun ht => (noR_sound (by simpa [tailR] using ht) h0).elim)
   · simp at h
   · simp at h
 
 theorem sim_binary {fuel : Nat} (ih : SimE fo host P bodies fuel) (ihA : SimA fo host P bodies fuel)
     (op : Instruction) (l r : Expr F) : SimAt fo host P bodies (fuel + 1) (.binary op l r) := by
-  intro cur st res st' h root pc rs vs fr entry hloc hwf hen hj hent hlt
+  intro cur st res st' h root pc rs vs fr entry hloc hwf hj hent hlt
   have h0 := h
   simp only [Located] at hloc
   obtain ⟨hll, hlr, hi⟩ := hloc
   simp only [wfC, Bool.and_eq_true] at hwf
-  have hen' : root = cur ∨ (enFree l = true ∧ enFree r = true) := by simpa [enFree] using hen
   have hend : pc + len (.binary op l r) = pc + len l + len r + 1 := by simp only [len]; omega
   rw [hend] at hlt ⊢
   simp only [evalFS] at h
   rcases eval_cases (fo := fo) (host := host) (bodies := bodies) (cur := cur) (fuel := fuel) (x := l) (st := st)
     with ⟨wl, st1, hx⟩ | ⟨w, st1, hx⟩ | ⟨e, hx⟩ | hx <;> simp only [hx] at h
-  · have ihl := (ih l cur st _ _ hx root pc rs vs fr entry hll hwf.1.2 (hen'.imp id (·.1)) hj hent (by omega)).toReach
+  · have ihl := (ih l cur st _ _ hx root pc rs vs fr entry hll hwf.1.2 hj hent (by omega)).toReach
     rcases eval_cases (fo := fo) (host := host) (bodies := bodies) (cur := cur) (fuel := fuel) (x := r) (st := st1)
       with ⟨wr, st2, hy⟩ | ⟨w, st2, hy⟩ | ⟨e, hy⟩ | hy <;> simp only [hy] at h
-    · have ihr := (ih r cur st1 _ _ hy root (pc + len l) (wl :: rs) vs fr entry hlr hwf.2 (hen'.imp id (·.2)) hj hent
+    · have ihr := (ih r cur st1 _ _ hy root (pc + len l) (wl :: rs) vs fr entry hlr hwf.2 hj hent
         (by omega)).toReach
       split at h
       · rename_i hop
@@ -102,35 +100,34 @@ theorem sim_binary {fuel : Nat} (ih : SimE fo host P bodies fuel) (ihA : SimA fo
     · simp only [Out.ok.injEq, Prod.mk.injEq] at h
       obtain ⟨rfl, rfl⟩ := h
       exact ResOK.sub_restart (pend := [wl]) ihl
-        (ih r cur st1 _ _ hy root (pc + len l) (wl :: rs) vs fr entry hlr hwf.2 (hen'.imp id (·.2)) hj hent (by omega))
+        (ih r cur st1 _ _ hy root (pc + len l) (wl :: rs) vs fr entry hlr hwf.2 hj hent (by omega))
         (fun ht => (noR_sound (by simpa [tailR] using ht) h0).elim)
     · simp at h
     · simp at h
   · simp only [Out.ok.injEq, Prod.mk.injEq] at h
     obtain ⟨rfl, rfl⟩ := h
     exact ResOK.sub_restart (pend := []) (.refl _)
-      (ih l cur st _ _ hx root pc rs vs fr entry hll hwf.1.2 (hen'.imp id (·.1)) hj hent (by omega))
+      (ih l cur st _ _ hx root pc rs vs fr entry hll hwf.1.2 hj hent (by omega))
       (fun ht => (noR_sound (by simpa [tailR] using ht) h0).elim)
   · simp at h
   · simp at h
 
 theorem sim_pair {fuel : Nat} (ih : SimE fo host P bodies fuel)
     (l r : Expr F) : SimAt fo host P bodies (fuel + 1) (.pair l r) := by
-  intro cur st res st' h root pc rs vs fr entry hloc hwf hen hj hent hlt
+  intro cur st res st' h root pc rs vs fr entry hloc hwf hj hent hlt
   have h0 := h
   simp only [Located] at hloc
   obtain ⟨hlr, hll, hi⟩ := hloc
   simp only [wfC, Bool.and_eq_true] at hwf
-  have hen' : root = cur ∨ (enFree l = true ∧ enFree r = true) := by simpa [enFree] using hen
   have hend : pc + len (.pair l r) = pc + len r + len l + 1 := by simp only [len]; omega
   rw [hend] at hlt ⊢
   simp only [evalFS] at h
   rcases eval_cases (fo := fo) (host := host) (bodies := bodies) (cur := cur) (fuel := fuel) (x := r) (st := st)
     with ⟨wr, st1, hx⟩ | ⟨w, st1, hx⟩ | ⟨e, hx⟩ | hx <;> simp only [hx] at h
-  · have ihr := (ih r cur st _ _ hx root pc rs vs fr entry hlr hwf.2 (hen'.imp id (·.2)) hj hent (by omega)).toReach
+  · have ihr := (ih r cur st _ _ hx root pc rs vs fr entry hlr hwf.2 hj hent (by omega)).toReach
     rcases eval_cases (fo := fo) (host := host) (bodies := bodies) (cur := cur) (fuel := fuel) (x := l) (st := st1)
       with ⟨wl, st2, hy⟩ | ⟨w, st2, hy⟩ | ⟨e, hy⟩ | hy <;> simp only [hy] at h
-    · have ihl := (ih l cur st1 _ _ hy root (pc + len r) (wr :: rs) vs fr entry hll hwf.1 (hen'.imp id (·.1)) hj hent
+    · have ihl := (ih l cur st1 _ _ hy root (pc + len r) (wr :: rs) vs fr entry hll hwf.1 hj hent
         (by omega)).toReach
       simp only [Out.ok.injEq, Prod.mk.injEq] at h
       obtain ⟨rfl, rfl⟩ := h
@@ -138,69 +135,67 @@ theorem sim_pair {fuel : Nat} (ih : SimE fo host P bodies fuel)
     · simp only [Out.ok.injEq, Prod.mk.injEq] at h
       obtain ⟨rfl, rfl⟩ := h
       exact ResOK.sub_restart (pend := [wr]) ihr
-        (ih l cur st1 _ _ hy root (pc + len r) (wr :: rs) vs fr entry hll hwf.1 (hen'.imp id (·.1)) hj hent (by omega))
+        (ih l cur st1 _ _ hy root (pc + len r) (wr :: rs) vs fr entry hll hwf.1 hj hent (by omega))
         (fun ht => (noR_sound (by simpa [tailR] using ht) h0).elim)
     · simp at h
     · simp at h
   · simp only [Out.ok.injEq, Prod.mk.injEq] at h
     obtain ⟨rfl, rfl⟩ := h
     exact ResOK.sub_restart (pend := []) (.refl _)
-      (ih r cur st _ _ hx root pc rs vs fr entry hlr hwf.2 (hen'.imp id (·.2)) hj hent (by omega))
+      (ih r cur st _ _ hx root pc rs vs fr entry hlr hwf.2 hj hent (by omega))
       (fun ht => (noR_sound (by simpa [tailR] using ht) h0).elim)
   · simp at h
   · simp at h
 
 theorem sim_applyTo {fuel : Nat} (ih : SimE fo host P bodies fuel) (ihA : SimA fo host P bodies fuel)
     (x f : Expr F) : SimAt fo host P bodies (fuel + 1) (.applyTo x f) := by
-  intro cur st res st' h root pc rs vs fr entry hloc hwf hen hj hent hlt
+  intro cur st res st' h root pc rs vs fr entry hloc hwf hj hent hlt
   have h0 := h
   simp only [Located] at hloc
   obtain ⟨hlf, hlx, hi⟩ := hloc
   simp only [wfC, Bool.and_eq_true] at hwf
-  have hen' : root = cur ∨ (enFree x = true ∧ enFree f = true) := by simpa [enFree] using hen
   have hend : pc + len (.applyTo x f) = pc + len f + len x + 1 := by simp only [len]; omega
   rw [hend] at hlt ⊢
   simp only [evalFS] at h
   rcases eval_cases (fo := fo) (host := host) (bodies := bodies) (cur := cur) (fuel := fuel) (x := f) (st := st)
     with ⟨wf, st1, hx⟩ | ⟨w, st1, hx⟩ | ⟨e, hx⟩ | hx <;> simp only [hx] at h
-  · have ihf := (ih f cur st _ _ hx root pc rs vs fr entry hlf hwf.2 (hen'.imp id (·.2)) hj hent (by omega)).toReach
+  · have ihf := (ih f cur st _ _ hx root pc rs vs fr entry hlf hwf.2 hj hent (by omega)).toReach
     rcases eval_cases (fo := fo) (host := host) (bodies := bodies) (cur := cur) (fuel := fuel) (x := x) (st := st1)
       with ⟨wx, st2, hy⟩ | ⟨w, st2, hy⟩ | ⟨e, hy⟩ | hy <;> simp only [hy] at h
-    · have ihx := (ih x cur st1 _ _ hy root (pc + len f) (wf :: rs) vs fr entry hlx hwf.1 (hen'.imp id (·.1)) hj hent
+    · have ihx := (ih x cur st1 _ _ hy root (pc + len f) (wf :: rs) vs fr entry hlx hwf.1 hj hent
         (by omega)).toReach
       obtain ⟨v, rfl, hr⟩ := apply_reach ihA h (regs := wx :: wf :: rs) (rs := rs) hlt (step_apply hi)
       exact ResOK.ofReach ((ihf.trans ihx).trans hr)
     · simp only [Out.ok.injEq, Prod.mk.injEq] at h
       obtain ⟨rfl, rfl⟩ := h
       exact ResOK.sub_restart (pend := [wf]) ihf
-        (ih x cur st1 _ _ hy root (pc + len f) (wf :: rs) vs fr entry hlx hwf.1 (hen'.imp id (·.1)) hj hent (by omega))
+        (ih x cur st1 _ _ hy root (pc + len f) (wf :: rs) vs fr entry hlx hwf.1 hj hent (by omega))
         (fun ht => (noR_sound (by simpa [tailR] using ht) h0).elim)
     · simp at h
     · simp at h
   · simp only [Out.ok.injEq, Prod.mk.injEq] at h
     obtain ⟨rfl, rfl⟩ := h
     exact ResOK.sub_restart (pend := []) (.refl _)
-      (ih f cur st _ _ hx root pc rs vs fr entry hlf hwf.2 (hen'.imp id (·.2)) hj hent (by omega))
+      (ih f cur st _ _ hx root pc rs vs fr entry hlf hwf.2 hj hent (by omega))
       (fun ht => (noR_sound (by simpa [tailR] using ht) h0).elim)
   · simp at h
   · simp at h
 
 theorem sim_seq {fuel : Nat} (ih : SimE fo host P bodies fuel)
     (a b : Expr F) : SimAt fo host P bodies (fuel + 1) (.seq a b) := by
-  intro cur st res st' h root pc rs vs fr entry hloc hwf hen hj hent hlt
+  intro cur st res st' h root pc rs vs fr entry hloc hwf hj hent hlt
   simp only [Located] at hloc
   obtain ⟨hla, hi, hlb⟩ := hloc
   simp only [wfC, Bool.and_eq_true] at hwf
-  have hen' : root = cur ∨ (enFree a = true ∧ enFree b = true) := by simpa [enFree] using hen
   have hend : pc + len (.seq a b) = pc + len a + 1 + len b := by simp only [len]; omega
   rw [hend] at hlt ⊢
   simp only [evalFS] at h
   rcases eval_cases (fo := fo) (host := host) (bodies := bodies) (cur := cur) (fuel := fuel) (x := a) (st := st)
     with ⟨wa, st1, hx⟩ | ⟨w, st1, hx⟩ | ⟨e, hx⟩ | hx <;> simp only [hx] at h
-  · have iha := (ih a cur st _ _ hx root pc rs vs fr entry hla hwf.1 (hen'.imp id (·.1)) hj hent (by omega)).toReach
+  · have iha := (ih a cur st _ _ hx root pc rs vs fr entry hla hwf.1 hj hent (by omega)).toReach
     have hup := iha.snoc (step_updateValue hi (by omega))
     have ihb := ih b cur { st1 with inp := wa } res st' h root (pc + len a + 1) rs vs fr entry hlb hwf.2
-      (hen'.imp id (·.2)) hj hent (by omega)
+      hj hent (by omega)
     cases res with
     | val v => exact ResOK.ofReach (hup.trans ihb.toReach)
     | restart v =>
@@ -210,7 +205,7 @@ theorem sim_seq {fuel : Nat} (ih : SimE fo host P bodies fuel)
   · simp only [Out.ok.injEq, Prod.mk.injEq] at h
     obtain ⟨rfl, rfl⟩ := h
     refine ResOK.sub_restart (pend := []) (.refl _)
-      (ih a cur st _ _ hx root pc rs vs fr entry hla hwf.1 (hen'.imp id (·.1)) hj hent (by omega)) (fun ht => ?_)
+      (ih a cur st _ _ hx root pc rs vs fr entry hla hwf.1 hj hent (by omega)) (fun ht => ?_)
     simp only [tailR, Bool.and_eq_true] at ht
     exact (noR_sound ht.1 hx).elim
   · simp at h
@@ -218,23 +213,22 @@ theorem sim_seq {fuel : Nat} (ih : SimE fo host P bodies fuel)
 
 theorem sim_sideAfter {fuel : Nat} (ih : SimE fo host P bodies fuel)
     (x b : Expr F) : SimAt fo host P bodies (fuel + 1) (.sideAfter x b) := by
-  intro cur st res st' h root pc rs vs fr entry hloc hwf hen hj hent hlt
+  intro cur st res st' h root pc rs vs fr entry hloc hwf hj hent hlt
   have h0 := h
   simp only [Located] at hloc
   obtain ⟨hlx, hi1, hlb, hi2⟩ := hloc
   simp only [wfC, Bool.and_eq_true] at hwf
-  have hen' : root = cur ∨ (enFree x = true ∧ enFree b = true) := by simpa [enFree] using hen
   have hend : pc + len (.sideAfter x b) = pc + len x + 1 + len b + 1 := by simp only [len]; omega
   rw [hend] at hlt ⊢
   simp only [evalFS] at h
   rcases eval_cases (fo := fo) (host := host) (bodies := bodies) (cur := cur) (fuel := fuel) (x := x) (st := st)
     with ⟨wx, st1, hx⟩ | ⟨w, st1, hx⟩ | ⟨e, hx⟩ | hx <;> simp only [hx] at h
-  · have ihx := (ih x cur st _ _ hx root pc rs vs fr entry hlx hwf.1.1 (hen'.imp id (·.1)) hj hent (by omega)).toReach
+  · have ihx := (ih x cur st _ _ hx root pc rs vs fr entry hlx hwf.1.1 hj hent (by omega)).toReach
     have hst := ihx.snoc (step_startSideEffect hi1 (by omega))
     rcases eval_cases (fo := fo) (host := host) (bodies := bodies) (cur := cur) (fuel := fuel) (x := b) (st := st1)
       with ⟨wb, st2, hy⟩ | ⟨w, st2, hy⟩ | ⟨e, hy⟩ | hy <;> simp only [hy] at h
     · have ihb := (ih b cur st1 _ _ hy root (pc + len x + 1) (wx :: rs) (st1.inp :: vs) fr entry hlb hwf.1.2
-        (hen'.imp id (·.2)) hj hent (by omega)).toReach
+        hj hent (by omega)).toReach
       simp only [Out.ok.injEq, Prod.mk.injEq] at h
       obtain ⟨rfl, rfl⟩ := h
       exact ResOK.ofReach ((hst.trans ihb).snoc (step_endSideEffect hi2 hlt))
@@ -244,24 +238,23 @@ theorem sim_sideAfter {fuel : Nat} (ih : SimE fo host P bodies fuel)
   · simp only [Out.ok.injEq, Prod.mk.injEq] at h
     obtain ⟨rfl, rfl⟩ := h
     exact ResOK.sub_restart (pend := []) (.refl _)
-      (ih x cur st _ _ hx root pc rs vs fr entry hlx hwf.1.1 (hen'.imp id (·.1)) hj hent (by omega))
+      (ih x cur st _ _ hx root pc rs vs fr entry hlx hwf.1.1 hj hent (by omega))
       (fun ht => (noR_sound (by simpa [tailR] using ht) h0).elim)
   · simp at h
   · simp at h
 
 theorem sim_reapply {fuel : Nat} (ih : SimE fo host P bodies fuel)
     (x : Expr F) : SimAt fo host P bodies (fuel + 1) (.reapply x) := by
-  intro cur st res st' h root pc rs vs fr entry hloc hwf hen hj hent hlt
+  intro cur st res st' h root pc rs vs fr entry hloc hwf hj hent hlt
   simp only [Located] at hloc
   obtain ⟨hlx, hi1, hi2⟩ := hloc
   simp only [wfC] at hwf
-  have hen' : root = cur ∨ enFree x = true := by simpa [enFree] using hen
   have hend : pc + len (.reapply x) = pc + len x + 2 := by simp only [len]; omega
   rw [hend] at hlt ⊢
   simp only [evalFS] at h
   rcases eval_cases (fo := fo) (host := host) (bodies := bodies) (cur := cur) (fuel := fuel) (x := x) (st := st)
     with ⟨w, st1, hx⟩ | ⟨w, st1, hx⟩ | ⟨e, hx⟩ | hx <;> simp only [hx] at h
-  · have ihx := (ih x cur st _ _ hx root pc rs vs fr entry hlx hwf hen' hj hent (by omega)).toReach
+  · have ihx := (ih x cur st _ _ hx root pc rs vs fr entry hlx hwf hj hent (by omega)).toReach
     simp only [Out.ok.injEq, Prod.mk.injEq] at h
     obtain ⟨rfl, rfl⟩ := h
     refine ⟨[], ?_, fun _ => rfl⟩
@@ -269,7 +262,7 @@ theorem sim_reapply {fuel : Nat} (ih : SimE fo host P bodies fuel)
   · simp only [Out.ok.injEq, Prod.mk.injEq] at h
     obtain ⟨rfl, rfl⟩ := h
     refine ResOK.sub_restart (pend := []) (.refl _)
-      (ih x cur st _ _ hx root pc rs vs fr entry hlx hwf hen' hj hent (by omega)) (fun ht => ?_)
+      (ih x cur st _ _ hx root pc rs vs fr entry hlx hwf hj hent (by omega)) (fun ht => ?_)
     simp only [tailR] at ht
     exact (noR_sound ht hx).elim
   · simp at h
